@@ -161,6 +161,23 @@ def run_migration(ctx, files, faults, label):
         return ('CONTENT', path, fs.files.get(path))
     sp.models['method:Obj:*.read'] = Func(m_read)
 
+    # load_settings(config_dir, settings_file): the settings as load_config reads them. The ghost settings file has the key 'merchants_file' exactly when
+    # the key line was (partly or wholly) appended - a torn key line is still a key, with a cut-off value
+    def m_load_settings(I_, a, k, n):
+        name = a[1] if len(a) > 1 else k.get('settings_file', 'settings.yaml')
+        path = CFG + '/' + name
+        if path not in fs.files:
+            raise PyRaise('FileNotFoundError', (), 'load_settings')
+        return ('SETTINGS_DICT', fs.files[path])
+    sp.models['load_settings'] = Func(m_load_settings)
+
+    def m_isinstance(I_, a, k, n):
+        if isinstance(a[0], tuple) and a[0] and a[0][0] == 'SETTINGS_DICT':
+            return True
+        from pyvc.interp import _b_isinstance
+        return _b_isinstance(I_, a, k, n)
+    sp.models['isinstance'] = Func(m_isinstance)
+
     def contains_hook(I_, container, item, node):
         raise Unsupported('contains')
     # `'merchants_file:' not in content`
@@ -169,7 +186,7 @@ def run_migration(ctx, files, faults, label):
     def contains(container, item, node):
         if isinstance(container, tuple) and container and container[0] == 'CONTENT':
             if item == 'merchants_file:' and container[2] and container[2][0] == 'settings':
-                return container[2][1] in ('partial', 'full')
+                return container[2][1] in ('partial', 'full') or bool(getattr(ctx, 'c15_text_mentions_key', False))
             raise Unsupported('content test %r' % (item,))
         return orig_contains(container, item, node)
     I.contains = contains
@@ -179,6 +196,8 @@ def run_migration(ctx, files, faults, label):
     def method(o, attr, args, kwargs, node):
         if isinstance(o, tuple) and o and o[0] == 'CONTENT' and attr in ('endswith', 'startswith', 'isspace'):
             return bool(ctx.choose(2, 'content.%s@%d' % (attr, getattr(node, 'lineno', 0))))
+        if isinstance(o, tuple) and o and o[0] == 'SETTINGS_DICT' and attr == 'get' and args and args[0] == 'merchants_file':
+            return 'config/merchants.rules' if o[1] and o[1][0] == 'settings' and o[1][1] in ('partial', 'full') else None
         if isinstance(o, tuple) and o and o[0] == 'CONTENT' and attr in ('rstrip', 'strip'):
             return ('CONTENT+', o[1], o[2])
         return orig_method(o, attr, args, kwargs, node)
@@ -214,6 +233,9 @@ def h_migrate(ctx):
     fs0 = FS(had_key)
     start = dict(fs0.files)
     # budgets that already have target files: a merchants.rules the user wrote by hand (not named in settings yet) and / or an older backup
+    # the user's settings text may contain the characters 'merchants_file:' without setting it (a comment, a longer key name, a quoted value): a test on
+    # the raw text sees them, load_config does not
+    ctx.c15_text_mentions_key = bool(ctx.choose(2, 'settings_text_mentions_merchants_file_without_setting_it'))
     existing = ctx.choose(4, 'existing_targets')
     if existing in (1, 3):
         start[RULES] = ('hand_written_rules',)
